@@ -395,7 +395,7 @@ class Evaluator:
 
     # ------------------------------------------------------------------ contexts / entries
     def param_av(self, fn, name, **kw):
-        d = dict(deps=frozenset([('param', name)]), alias=frozenset([('param', fn.qual, name)]))
+        d = dict(deps=frozenset([('param', name)]), alias=frozenset([('param', fn.qual, name)]), vid=('p', fn.qual, name))
         d.update(kw)
         return AV(**d)
 
@@ -444,6 +444,16 @@ class Evaluator:
         """use a parameter annotation naming a repo class: the value is an instance of it or of a subclass"""
         ann = fn.annotations.get(p)
         if ann is None or v.obj is not None:
+            return v
+        import ast as _ast
+        txt = _ast.unparse(ann)
+        if txt.startswith('Optional[') and txt.endswith(']'):
+            txt = txt[len('Optional['):-1]
+        prim = {'int': 'scalar', 'float': 'scalar', 'bool': 'bool', 'str': 'str', 'tuple': 'tuple', 'complex': 'scalar'}.get(txt)
+        if prim is not None:
+            if v.kind is TOP and v.const is TOP:
+                ks = {prim} | ({'none'} if p in fn.defaults else set())
+                return v.replace(kind=frozenset(ks), alias=frozenset())
             return v
         r = self.prog.resolve_expr_static(fn.mod, ann)
         if not isinstance(r, Cls):
